@@ -9,5 +9,47 @@ THEOREMS = ["C09_only_success", "C09_preauth_moves", "C09_client_success_only", 
 LINK_NOTE = "Modulator-link stage: the real S2M/M2S dispatchers (crates/modulator/src/conn.rs) behind the real connection engine are fed raw byte chunks (handshakes with right/wrong/missing secret and version, the whole three-link vocabulary in each phase, payloads, scripted modulator outcomes) and compared chunk by chunk with Model/Link.v inside coqc (Conf/LinkConf.link_conf); the real S2mClient (crates/modulator/src/client.rs) is run against a scripted wire peer (sensible, contradictory, mis-correlated, malformed, missing replies, dropped links) and each call's result is compared with Model/Link.v's reply mapping (Conf/LinkConf.client_conf); a share of the server histories runs with the real S2M/M2S wire path between server and modulator (unix sockets), including histories in which the modulator process goes away (listener gone, links ended): every delegated decision must fail closed."
 
 
+def startup_stage(thorough, violations, stats):
+    """the modulator is unreachable at the very moment the server asks it which operations it performs (the dispatcher
+    factory is being built): start-up must fail, or the server must still insist on AUTH — it must never come up in open
+    mode, where IDENTIFY makes anybody anyone."""
+    import copy
+    from common import Rng, seed
+    r = Rng(seed() + 17)
+    cases = []
+    for n in (1, 2, 99):
+        for mod in (sl.MOD_CONFIGS[-1], {"ops": ["auth"], "proto": "P/2"}):
+            m = copy.deepcopy(mod)
+            m["ops_fail"] = n
+            cfg = sl.base_cfg(r, m)
+            cfg.update({"max_conns": 16})
+            ops = [{"t": "open", "k": 1},
+                   {"t": "send", "k": 1, "bytes": sl.frame("CONNECT", [("version", 1), ("heartbeat_interval", 0)]).hex(), "script": []},
+                   {"t": "send", "k": 1, "bytes": sl.frame("IDENTIFY", [("username", "alice")]).hex(), "script": []},
+                   {"t": "open", "k": 2},
+                   {"t": "send", "k": 2, "bytes": sl.frame("CONNECT", [("version", 1), ("heartbeat_interval", 0)]).hex(), "script": []},
+                   {"t": "send", "k": 2, "bytes": sl.frame("AUTH", [("token", "tok-bob")]).hex(), "script": [{"auth_success": b"bob".hex()}]}]
+            cases.append({"cfg": cfg, "ops": ops, "nomodel": True})
+    obs, out = sl.run_histories(cases, "debug", tag="c09start", timeout=300)
+    if obs is None:
+        violations.append((PROP, "start-up histories crashed or hung: " + out[-200:], cases[0], 0))
+        return
+    stats["startup_histories"] = len(cases)
+    stats["startup_refused"] = sum(1 for ob in obs if "setup_error" in ob)
+    for c, ob in zip(cases, obs):
+        if "ops" not in ob:
+            continue            # the factory could not be built: fail closed
+        for t, (op, o) in enumerate(zip(c["ops"], ob["ops"])):
+            for k, v in o["conns"].items():
+                for f in v["frames"]:
+                    if "undecodable" in f:
+                        continue
+                    if sl.frame_name(f) == "IDENTIFY_ACK":
+                        violations.append((PROP, "the modulator (which performs Auth) could not be asked for its operations when the server was built: the server came up in open mode and acknowledged IDENTIFY", c, t))
+                    if sl.frame_name(f) == "CONNECT_ACK" and sl.frame_get(f, "auth_required") is not True:
+                        violations.append((PROP, "the modulator (which performs Auth) could not be asked for its operations when the server was built: CONNECT_ACK announces auth_required=false", c, t))
+
+
 def run(tier, replay=None):
-    return srvprops.run(PROP, THEOREMS, tier, replay, extra_gen=sl.outage_histories, link=("link", "client"), rule_note=LINK_NOTE)
+    return srvprops.run(PROP, THEOREMS, tier, replay, extra_gen=sl.outage_histories, link=("link", "client"), extra_stage=startup_stage,
+                        rule_note=LINK_NOTE + " Start-up stage: the modulator's operations() fails while the dispatcher factory is built (once, twice, always): the server must not come up in open mode.")
